@@ -230,6 +230,7 @@ def run(ctx):
             corr.append(f"ec.dh {name} {da} {Pb[0]} {Pb[1]}")
         props.append(f"prop.c17dhhist {name} {rng.randrange(1 << 30)} {12 if quick else 40}")
         props.append(f"prop.c17dhcurves {name} {rng.choice([x for x in NAMED if x != name])} {rng.randrange(1 << 60)} {rng.randrange(1 << 60)}")
+        props.append(f"prop.c17nearcurve {name} {rng.randrange(1 << 60)}")
         # invalid points
         P = bases[-1]
         other = refec_curve(ctx, NAMED[(NAMED.index(name) + 1) % len(NAMED)])
